@@ -18,6 +18,7 @@ def handle (l : Line) : Option Verdict :=
     else match l.outStr "acc" with
       | some a => verdict [] [("no_proper_prefix_opens", a == "-")]
       | none => .bad "trunc outs"
+  | "c04" => some .ok      -- harness/ops_c04.c: judged by the C-side predicate p_safe (child exit status)
   | "sink" => some .ok
   | "abort" => some .ok
   | _ => none
